@@ -74,31 +74,45 @@ var checkC15Clock = def("C15/clock", func(c clockCase) error {
 	}
 	time.Sleep(time.Duration(c.HoldMS) * time.Millisecond)
 	close(first.release)
-	stop := make(chan struct{})
-	defer close(stop)
-	go func() { // later iterations run freely
-		for {
-			select {
-			case ev := <-gs.entering:
-				close(ev.release)
-			case <-stop:
-				return
-			}
-		}
-	}()
+	// later iterations run freely, but each is let through only after the reports published so far
+	// have been read (the stream keeps the latest report only: an unread one would be replaced)
 	var got []search.PV
 	timeout := time.After(liveness)
-loop:
-	for {
+	closed := false
+	for !closed {
 		select {
+		case ev := <-gs.entering:
+			for drained := false; !drained && !closed; {
+				select {
+				case pv, ok := <-out:
+					if !ok {
+						closed = true
+					} else {
+						got = append(got, pv)
+					}
+				default:
+					drained = true
+				}
+			}
+			close(ev.release)
 		case pv, ok := <-out:
 			if !ok {
-				break loop
+				closed = true
+				break
 			}
 			got = append(got, pv)
 		case <-timeout:
 			halt()
 			return fmt.Errorf("%s: the analysis did not end (%d reports)", where, len(got))
+		}
+	}
+	// anything that reached the gate while the stream was closing
+	for more := true; more; {
+		select {
+		case ev := <-gs.entering:
+			close(ev.release)
+		default:
+			more = false
 		}
 	}
 	if len(got) == 0 || got[0].Depth != 1 {
